@@ -424,7 +424,11 @@ pub fn seq_strategy() -> impl Strategy<Value = SeqCase> {
             free: vec![Value::atom(fv)],
         }),
     ];
-    let term = prop::collection::vec(leaf, 1..6).prop_map(Value::Tuple);
+    let narrow = prop::collection::vec(leaf, 1..6).prop_map(Value::Tuple);
+    // wide messages: 40..250 consecutive names of a numbered vocabulary, so that successive headers overlap in part and carry
+    // new and known entries (and every segment) at every header position, also beyond position 64 / 128
+    let wide = (0usize..300, prop_oneof![40usize..100, 100usize..=250]).prop_map(|(s, n)| Value::Tuple((s..s + n).map(|i| Value::atom(&format!("w{i}"))).collect()));
+    let term = prop_oneof![5 => narrow, 1 => wide];
     let msg = (term.clone(), prop::option::weighted(0.6, term));
     (prop::collection::vec(msg, 2..20), prop::collection::vec(any::<u16>(), 0..160), 0u8..4, any::<bool>(), prop_oneof![2 => Just(vec![]), 1 => prop::collection::vec(0u8..20, 1..4)])
         .prop_map(|(msgs, slots, policy, inline_some, cut_first)| SeqCase { msgs, slots, policy, inline_some, cut_first })
@@ -434,7 +438,7 @@ pub fn run(run: &mut Run) {
     run.rule = "(a) control/payload pairs with exactly k distinct atoms for every k in 0..=258 (both parities) x {no long atom, one atom of 255/256/300 bytes} x payload yes/no, plus random \
         k, lengths (0,1,254..257,1000,65535) and shapes (atoms inside tuples, lists, map keys, pids, refs, funs): encoded by the library, read by an independent header reader and by the \
         library's own reader. (b) sequences of 2..20 messages from a sender model with a persistent 2048-slot cache (new entries, re-use across messages, overwrites, all segments, \
-        position != slot, inline atoms, long atoms) decoded with one AtomCache. Non-trivial = (a) k >= 1, (b) a re-used or overwritten slot; distinct by bytes / script"
+        position != slot, inline atoms, long atoms; one message in six names 40..250 atoms of a numbered vocabulary so that headers of up to 255 references mix new and known entries at every position) decoded with one AtomCache. Non-trivial = (a) k >= 1, (b) a re-used or overwritten slot; distinct by bytes / script"
         .into();
     run.assumptions = vec![
         "refmodel::dist is a faithful reading of the distribution header layout (flags half-bytes, LongAtoms position, slot = segment*256+index, ATOM_CACHE_REF = header position)".into(),
